@@ -19,6 +19,7 @@ def cases_for(prop):
         "C06": ("compute_batch_gradients[",),
         "C08": ("SigmaZ",),
         "C13": ("statistics_from_samples",),
+        "C09": ("SWAP.apply[",),
     }.get(prop, ())
     return [c for c in allc if c.name.startswith(pick)]
 
